@@ -78,8 +78,8 @@ CHECKS = {
    "deviation-bounded schedule search with run_internet_with_timeout itself as a task of the explored runtime",
    "Machine sets from 0 machines to three-machine SendMessage/Forward/Capture chains, plus 17 sets of the other built-in protocols and applications (DHCP, DNS, socket, basic, streaming; pairs, servers alone, clients alone) on full stacks with ARP; harness applications that are slow to initialise, never initialise, return, hang, or request shutdown early/late/concurrently (incl. 20 at one instant) are run in every schedule within d deviations under a paused clock; a global event order shows that no frame or demux precedes the last initialisation, the status is the first request's (or TimedOut), and the call returns within timeout + 1 s.",
    "A request at exactly the timeout instant may win or lose; the built-in Capture's own request is accepted as a winner where present.", "6 C13"),
- "C04": (True, "E2", "model_checking",
-   "complete enumeration of binding configurations x deviation-bounded schedule search, wire-driven reference demultiplexer",
+ "C04": (True, "E2 + E4 (loom)", "model_checking",
+   "complete enumeration of binding configurations x deviation-bounded schedule search, wire-driven reference demultiplexer; exhaustive thread interleavings under loom (DPOR, preemption bound) of the UDP and socket listen tables (DashMap shard locks made loom-visible)",
    "Every subset (size <= 3) of five candidate bindings (own address x2 ports, wildcard, another machine's address, limited broadcast) on a receiving machine, crossed with companions on a second machine, with/without ARP and with/without a MAC in the sender's route, receives nine datagrams to {A1, A2, broadcast} x {P, Q, R}; for every datagram on the wire and every tap it reached a ten-line reference names the one recorder that must get it, and the recorders' logs must equal that multiset (payload, source and destination included); second binds must be refused.",
    "quick: 26 x 3 x 3 configurations; thorough: 26 x 26 x 3; d <= 1.", "6 C04"),
  "C19": (True, "E3 + E2", "model_checking",
@@ -125,7 +125,7 @@ def main():
         "setup_cmd": "./setup.sh",
         "hooks": {
             "guard": "cargo features `verif` (hooks, add-only) and `verif_loom` (= verif + loom's RwLock for the socket layer through the crate::vsync alias) of elvis-core",
-            "enable": "harness crates depend on elvis-core by path with features=[\"verif\"]; tokio is patched to /verif/vendor/tokio via [patch.crates-io] in /verif/harness/Cargo.toml",
+            "enable": "harness crates depend on elvis-core by path with features=[\"verif\"]; tokio and dashmap are patched to /verif/vendor/tokio and /verif/vendor/dashmap via [patch.crates-io] in /verif/harness/Cargo.toml (dashmap is unchanged unless its feature verif_loom is on, which only the vloom binary enables)",
             "baseline_off_cmd": "/verif/baseline.sh",
             "source_commits": [h.split()[0] for h in hooks],
             "add_only": True,
@@ -137,8 +137,8 @@ def main():
              "serves_properties": ["C01", "C02", "C04", "C05", "C06", "C13", "C14", "C15", "C16", "C19", "C20"]},
             {"name": "E3", "path": "harness/vkit/src/enumerate.rs", "kind_free_text": E3,
              "serves_properties": ["C08", "C09", "C10", "C12", "C14", "C18", "C19"]},
-            {"name": "E4", "path": "harness/vloom/src/main.rs", "kind_free_text": "loom 0.7.2: every interleaving of 2-4 real threads over the socket layer's locks (DPOR, preemption bound 3 quick / unbounded thorough), one sub-process per scenario (harness/vkit/src/loomrun.rs)",
-             "serves_properties": ["C02"]},
+            {"name": "E4", "path": "harness/vloom/src/main.rs", "kind_free_text": "loom 0.7.2: every interleaving of 2-4 real threads over the socket layer's locks (DPOR, preemption bound 3 quick / unbounded thorough), one sub-process per scenario (harness/vkit/src/loomrun.rs); scheduling points are the socket layer's RwLocks (loom's under elvis-core feature verif_loom) and DashMap's shard locks (vendored dashmap with a spin lock over a loom atomic)",
+             "serves_properties": ["C02", "C04"]},
         ],
         "checks": checks,
         "not_applicable": na,
